@@ -10,8 +10,11 @@ import uuid as uuidlib
 
 from . import geomgen as G
 
-LABELS = ["species", "call_type", "snr", "quality", "énergie", "dur ms", "f0", "sex"]
-VALUES = ["Myotis myotis", "feeding buzz", "x", "social", "ß", "", "long value with spaces"]
+LABELS = ["species", "call_type", "snr", "quality", "énergie", "dur ms", "f0", "sex", "taxon", "taxon:genus", "dwc:scientificName", "a/b", "a"]
+VALUES = ["Myotis myotis", "feeding buzz", "x", "social", "ß", "", "long value with spaces", "genus:Myotis", "Myotis", "b/c", "b:c"]
+# pairs of distinct tags whose naive "label<sep>value" renderings coincide
+COLLIDING = [(("taxon", "genus:Myotis"), ("taxon:genus", "Myotis")), (("a/b", "c"), ("a", "b/c")), (("a", "b c"), ("a b", "c")),
+             (("species", ""), ("", "species")), (("a", "b:c"), ("a:b", "c"))]
 NAMES = ["ana", "Björn", "c d", "ei", "fu"]
 T0 = datetime.datetime(2023, 5, 17, 8, 30, 15)
 
@@ -31,6 +34,14 @@ class Graph:
         r = rng
         self.users = [self.user() for _ in range(r.randint(1, 4))]
         self.tags = [self.tag(i) for i in range(r.randint(1, 6))]
+        if r.random() < 0.3:  # two different tags that a careless key (joined string, value only, label only) would confuse
+            (l1, v1), (l2, v2) = r.choice(COLLIDING)
+            if l1 and l2:
+                self.tags += [self.d.Tag(term=self.term(l1), value=v1), self.d.Tag(term=self.term(l2), value=v2)]
+        if r.random() < 0.2 and self.tags:  # same label, different value / same value, different label
+            t = r.choice(self.tags)
+            self.tags += [self.d.Tag(term=t.term, value=t.value + "'"), self.d.Tag(term=self.term(r.choice(LABELS)), value=t.value)]
+            r.shuffle(self.tags)
         self.notes = [self.note() for _ in range(r.randint(0, 4))]
         self.recs = [self.recording(i) for i in range(self.k(1, 3))]
         self.clips = [self.clip() for _ in range(self.k(1, 4))]
